@@ -452,3 +452,16 @@ func (pv *Prov) Atom(v ssa.Value, env *Env) string {
 	}
 	return "?" + fmt.Sprintf("%T", v)
 }
+
+// addrAtom renders the address path of a field (without looking through stores).
+func (pv *Prov) addrAtom(fa *ssa.FieldAddr, env *Env) string {
+	st, _ := fa.X.Type().Underlying().(*types.Pointer).Elem().Underlying().(*types.Struct)
+	name := fmt.Sprintf("f%d", fa.Field)
+	if st != nil && fa.Field < st.NumFields() {
+		name = st.Field(fa.Field).Name()
+	}
+	if inner, ok := fa.X.(*ssa.FieldAddr); ok {
+		return pv.addrAtom(inner, env) + "." + name
+	}
+	return withSuffix(pv.Atom(fa.X, env), "."+name)
+}
